@@ -113,7 +113,12 @@ func c20History(t *testing.T, seed uint64, mode string) rt.Result {
 	verdict := ""
 	out := hz.Run(t, hz.Opts{Seed: seed, HookMode: hz.HookYield, NoServe: mode == "idle", Quiet: true, Limit: time.Hour}, func(w *hz.World) {
 		r := rand.New(rand.NewPCG(seed, 20))
-		keys := []string{"10.0.1.1", "10.0.1.2", "10.0.1.3", "2001:db8::1"}[:2+r.IntN(3)]
+		// (an IPv4-mapped IPv6 address is a key of its own, distinct from the IPv4 address)
+		all := []string{"10.0.1.1", "10.0.1.2", "::ffff:10.0.1.1", "2001:db8::1", "10.0.1.3"}
+		var keys []string
+		for _, k := range r.Perm(len(all))[:2+r.IntN(3)] {
+			keys = append(keys, all[k])
+		}
 		clients := 2 + r.IntN(5)
 		perClient := 4 + r.IntN(5)
 		var clock atomic.Int64
